@@ -847,6 +847,32 @@ def litforms(tier='quick'):
     return out
 
 
+def rtjs(tier='quick'):
+    """Operation sequences that lean on the JS runtime behind the wasm imports (array growth from capacity 0, 1, 2, 3;
+    a second array allocated after appends; element writes after growth).  The symbolic comparison goes through the
+    import contracts; these templates are ALWAYS replayed natively and under node with the shipped runtime.js, so a
+    runtime that breaks its contract on the witness input shows as a witness disagreement."""
+    out = []
+    DT = DynT(I64)
+    a, b = Var('a', DT), Var('b', DT)
+
+    def total(arr, n):
+        e = None
+        for k in range(n):
+            t = Index(arr, Lit(k, I32))
+            e = t if e is None else Bin('-', Bin('+', e, e), t)
+        return e
+    for m in (0, 1, 2, 3):
+        for p in (1, 2, 3, 5):
+            lit = [X, Lit(20, I64), Lit(30, I64)][:m]
+            body = [Let('a', DT, ArrLit(DT, lit))] + [Append(a, Bin('+', Y, Lit(k, I64))) for k in range(p)] + \
+                   [Let('b', DT, ArrLit(DT, [Lit(100, I64), Lit(200, I64)])), Append(b, X), Print(Index(b, Lit(2, I32))),
+                    Assign(Index(a, Lit(m + p - 1, I32)), Lit(77, I64)),
+                    Return(Bin('+', total(a, m + p), Index(b, Lit(0, I32))))]
+            out.append(Template('rtjs/grow/m%d_p%d' % (m, p), fn2(body), family='rtjs', meta={'replay_witness': True, 'always_replay': True}))
+    return out
+
+
 def c02(tier='quick', seed=0):
     if tier == 'quick':
         T6 = [I8, I32, I64, U8, U32, U64]
@@ -856,8 +882,8 @@ def c02(tier='quick', seed=0):
         # per run (which third depends on the seed); counterexamples are always replayed
         for i, t in enumerate(out):
             t.meta = dict(t.meta, replay_witness=(i % 3 == seed % 3))
-        return out
-    return c01_thorough() + c02_extra(tier) + c04(tier) + c08(tier) + c18(tier) + c05(tier, 0) + litforms(tier)
+        return out + rtjs(tier)
+    return c01_thorough() + c02_extra(tier) + c04(tier) + c08(tier) + c18(tier) + c05(tier, 0) + litforms(tier) + rtjs(tier)
 
 
 # ------------------------------------------------------------------------------------------------ C10 wide literals
